@@ -172,3 +172,562 @@ def arg_sqrt(rng):
 def gen_sqrt(rng, n):
     for _ in range(n):
         yield line('sqrt', rng.choice(MODES), status_in(rng), arg_sqrt(rng))
+
+
+# ------------------------------------------------------------------------------------------------ shared pair stream (C03 C16 C18 C20)
+def related(rng, x):
+    """a partner for x aimed at the decision cells of comparisons: same cohort, one unit off at the finer quantum, sign flips"""
+    d = decode(x)
+    if d[0] != 'fin' or d[2] == 0 or rng.random() < 0.25: return datum(rng, 0.5)
+    _, s, c, q = d; k = rng.random()
+    if k < 0.3:       # same value, different quantum
+        cc, qq = c, q
+        if rng.random() < 0.5:
+            while cc % 10 == 0 and qq < QMAX and rng.random() < 0.8: cc //= 10; qq += 1
+        else:
+            while cc * 10 < T34 and qq > QMIN and rng.random() < 0.8: cc *= 10; qq -= 1
+        return fin(s if rng.random() < 0.85 else 1 - s, cc, qq)
+    if k < 0.65:      # one unit off at every admissible gap
+        g = rng.randint(0, 34 - ndig(c)); cc = c * 10 ** g + rng.choice([-1, 1]); qq = q - g
+        if qq >= QMIN and 0 < cc < T34: return fin(s, cc, qq)
+        return finite(rng, e=q)
+    if k < 0.75:      # strip zeros then one unit off (partner coarser)
+        cc, qq = c, q
+        while cc % 10 == 0 and qq < QMAX: cc //= 10; qq += 1
+        return fin(s, max(1, cc + rng.choice([-1, 0, 1])), qq)
+    if k < 0.85: return fin(rng.randint(0, 1), coeff(rng), q + ndig(c) - rng.randint(1, 34) + rng.choice([-1, 0, 0, 1]))
+    return finite(rng, e=q + rng.randint(-40, 40))
+
+
+def cmp_pair(rng):
+    k = rng.random()
+    if k < 0.15:      # enumerated cell: (q1, q2, gap) near-equal pair
+        q1 = rng.randint(1, 34); c1 = coeff(rng, q1); g = rng.randint(0, 34 - q1)
+        e = expo(rng)
+        if e - g < QMIN: e = QMIN + g
+        x = fin(0, c1, e); y = fin(0, c1 * 10 ** g + rng.choice([-1, 0, 1]), e - g)
+        s = rng.randint(0, 1)
+        if s: x |= 1 << 127; y |= 1 << 127
+    else:
+        x = datum(rng, 0.35) if rng.random() < 0.7 else finite(rng, q=rng.randint(1, 6))
+        y = related(rng, x)
+    return (x, y) if rng.random() < 0.5 else (y, x)
+
+
+def gen_cmp(rng, n):
+    for _ in range(n // 20):
+        x, y = cmp_pair(rng)
+        for i in range(20):
+            yield line('cmp', 0, status_in(rng), x, y, '%x' % i)
+
+
+def gen_ops(rng, n):
+    for _ in range(n):
+        x, y = cmp_pair(rng)
+        yield line('ops', 0, 0, x, y)
+
+
+def gen_minmax(rng, n):
+    for _ in range(n):
+        x, y = cmp_pair(rng)
+        yield line(rng.choice(['minnum', 'maxnum', 'minmag', 'maxmag']), 0, status_in(rng), x, y)
+
+
+def nan_pair(rng):
+    x = nan(rng); d = decode(x); k = rng.random()
+    if k < 0.4:
+        y = x ^ (1 << rng.randint(0, 127))
+    elif k < 0.7: y = nan(rng)
+    else: y = datum(rng, 0.6)
+    return (x, y) if rng.random() < 0.5 else (y, x)
+
+
+def gen_total(rng, n):
+    for _ in range(n):
+        x, y = cmp_pair(rng) if rng.random() < 0.75 else nan_pair(rng)
+        yield line(rng.choice(['totalorder', 'totalordermag']), 0, 0, x, y)
+
+
+def gen_hash(rng, n):
+    for _ in range(n):
+        x, y = cmp_pair(rng) if rng.random() < 0.85 else nan_pair(rng)
+        yield line(rng.choice(['hasheq', 'hashset']), 0, 0, x, y)
+
+
+# ------------------------------------------------------------------------------------------------ C02 fma
+def triple_fma(rng):
+    k = rng.random()
+    if k < 0.35:      # alignment cells: q4 = digits of product, delta = q3 + e3 - q4 - e4 on the case boundaries
+        q1 = rng.randint(1, 34); q2 = rng.randint(1, 34); q3 = rng.randint(1, 34)
+        c1, c2, c3 = coeff(rng, q1), coeff(rng, q2), coeff(rng, q3)
+        q4 = ndig(c1 * c2)
+        delta = rng.choice([-70, -69, -68, -36, -35, -34, -33, -2, -1, 0, 1, 2, 33, 34, 35, 36, 34 - q4, 35 - q4, 33 - q4, q3 - q4,
+                            34 - q3, 33 - q3, q4 - 34, q4 - 35, 68, 69, 70, rng.randint(-72, 72)])
+        e1 = rng.randint(-3000, 3000); e2 = rng.randint(-3000, 3000)
+        e3 = delta + q4 + e1 + e2 - q3
+        return fin(rng.randint(0, 1), c1, e1), fin(rng.randint(0, 1), c2, e2), fin(rng.randint(0, 1), c3, e3)
+    if k < 0.50:      # cancellation: z = -(x*y) +/- small, when the product fits or nearly
+        q1 = rng.randint(1, 17); q2 = rng.randint(1, 17); c1, c2 = coeff(rng, q1), coeff(rng, q2)
+        p = c1 * c2; e1, e2 = rng.randint(-100, 100), rng.randint(-100, 100); s1, s2 = rng.randint(0, 1), rng.randint(0, 1)
+        kk = rng.random()
+        if kk < 0.3: c3, e3 = p, e1 + e2
+        elif kk < 0.6: c3, e3 = max(1, p + rng.choice([-1, 1, -10, 10])), e1 + e2
+        else:
+            c3, e3 = p, e1 + e2
+            while c3 % 10 == 0 and rng.random() < 0.7: c3 //= 10; e3 += 1
+            c3 = max(1, c3 + rng.choice([0, 1, -1]))
+        return fin(s1, c1, e1), fin(s2, c2, e2), fin(1 - (s1 ^ s2), c3, e3)
+    if k < 0.62:      # product deep below the bottom exponent (e_x + e_y < -6176)
+        c1, c2, c3 = coeff(rng), coeff(rng), coeff(rng)
+        e1 = rng.randint(QMIN, -3000); e2 = rng.randint(QMIN, -3000 if rng.random() < 0.5 else 100)
+        if e1 + e2 > QMIN: e2 = QMIN - e1 - rng.randint(0, 70)
+        e2 = max(QMIN, e2)
+        e3 = rng.choice([QMIN + rng.randint(0, 70), e1 + e2 + rng.randint(-40, 80)])
+        return fin(rng.randint(0, 1), c1, e1), fin(rng.randint(0, 1), c2, e2), fin(rng.randint(0, 1), c3, e3)
+    if k < 0.74:      # product near / above the overflow threshold, addend may rescue
+        c1, c2, c3 = coeff(rng), coeff(rng), coeff(rng)
+        tgt = QMAX + 34 - ndig(c1 * c2) + rng.randint(-3, 40)
+        e1 = rng.randint(max(QMIN, tgt - QMAX), min(QMAX, tgt - 0)); e2 = tgt - e1
+        if rng.random() < 0.3: c1 = 10 ** rng.randint(0, 33); c2 = 10 ** rng.randint(0, 33)
+        e3 = QMAX - rng.randint(0, 40)
+        return fin(rng.randint(0, 1), c1, e1), fin(rng.randint(0, 1), c2, e2), fin(rng.randint(0, 1), c3, e3)
+    if k < 0.84:      # z = +-0 at every kind of exponent; y = 1
+        x, y = finite(rng), finite(rng)
+        if rng.random() < 0.5: return x, y, fin(rng.randint(0, 1), 0, expo(rng))
+        return x, fin(0, 1, 0), finite(rng)
+    if k < 0.92:      # head/tail through the addend: x*y exact head, z tail
+        h = head34(rng); L = rng.randint(1, 34); t = int(tail_digits(rng, L)); e = rng.randint(-200, 200); s = rng.randint(0, 1)
+        y = fin(0, rng.choice([1, 10, 100]), 0)
+        return fin(s, h, e + L), y, fin(s if rng.random() < 0.6 else 1 - s, t, e)
+    return datum(rng, 0.4), datum(rng, 0.4), datum(rng, 0.4)
+
+
+def gen_fma(rng, n):
+    for _ in range(n):
+        x, y, z = triple_fma(rng)
+        yield line('fma', rng.choice(MODES), status_in(rng), x, y, z)
+
+
+# ------------------------------------------------------------------------------------------------ C08 / C06 shared: fractional tails
+def frac_value(rng):
+    """finite value with negative exponent whose fractional tail is one of the rounding classes"""
+    q = rng.randint(1, 34); k = rng.randint(0, q + 3)      # k fractional digits
+    ip = coeff(rng, max(1, q - k)) if k < q else 0
+    if k == 0: return fin(rng.randint(0, 1), coeff(rng, q), rng.randint(0, 5))
+    t = tail_digits(rng, min(k, 34))
+    c = ip * 10 ** len(t) + int(t)
+    if c >= T34: c = c % T34
+    return fin(rng.randint(0, 1), c, -len(t) - (k - len(t)))
+
+
+def gen_rint(rng, n):
+    ops = ['rint', 'nearbyint', 'rint_ne', 'rint_na', 'rint_dn', 'rint_up', 'rint_tz', 'modf']
+    for _ in range(n):
+        k = rng.random()
+        x = frac_value(rng) if k < 0.6 else finite(rng, e=rng.randint(-40, 5)) if k < 0.8 else datum(rng, 0.5)
+        yield line(rng.choice(ops), rng.choice(MODES), status_in(rng), x)
+
+
+INT_TYPES = [('i32', 32, True), ('u32', 32, False), ('i64', 64, True), ('u64', 64, False)]
+INT_KINDS = ['rnint', 'floor', 'ceil', 'int', 'rninta']
+
+
+def int_boundary_value(rng, w, signed):
+    lo, hi = (-(1 << (w - 1)), (1 << (w - 1)) - 1) if signed else (0, (1 << w) - 1)
+    base = rng.choice([lo, hi, lo - 1, hi + 1, 0, -1, 1])
+    k = rng.randint(0, 33 - ndig(abs(base)) if abs(base) else 33)       # fractional digits
+    off = rng.choice([0, 5 * 10 ** (k - 1) if k else 0, 5 * 10 ** (k - 1) - 1 if k else 0, 5 * 10 ** (k - 1) + 1 if k else 0, 1 if k else 0, 10 ** k - 1 if k else 0])
+    v = abs(base) * 10 ** k + off * rng.choice([1, -1])
+    s = 1 if base < 0 or (base == 0 and rng.random() < 0.5) else 0
+    if v < 0: v = -v; s = 1 - s
+    return fin(s, v, -k)
+
+
+def gen_toint(rng, n):
+    for _ in range(n):
+        t, w, sg = rng.choice(INT_TYPES); kind = rng.choice(INT_KINDS); xf = rng.choice(['', 'x'])
+        k = rng.random()
+        if k < 0.45: x = int_boundary_value(rng, w, sg)
+        elif k < 0.7: x = frac_value(rng)
+        elif k < 0.8:   # integers near the limit written with positive exponents
+            v = rng.choice([1 << (w - 1), (1 << w), (1 << (w - 1)) - 1, (1 << w) - 1]) + rng.randint(-2, 2)
+            z = rng.randint(0, 3); x = fin(rng.randint(0, 1), v // 10 ** z, z)
+        elif k < 0.9: x = finite(rng, e=rng.randint(-40, 25))
+        else: x = datum(rng, 0.6)
+        yield line('to_%s_%s%s' % (t, xf, kind), 0, status_in(rng), x)
+    for _ in range(n // 10):
+        x = int_boundary_value(rng, 64, True) if rng.random() < 0.5 else frac_value(rng) if rng.random() < 0.7 else datum(rng, 0.5)
+        yield line(rng.choice(['lrint', 'llrint', 'lround', 'llround']), rng.choice(MODES), status_in(rng), x)
+
+
+def gen_fromint(rng, n):
+    for _ in range(n):
+        t, w, sg = rng.choice(INT_TYPES)
+        k = rng.random()
+        v = rng.getrandbits(w) if k < 0.6 else rng.choice([0, 1, (1 << w) - 1, 1 << (w - 1), (1 << (w - 1)) - 1, 10 ** rng.randint(0, 19) % (1 << w), rng.getrandbits(rng.randint(1, w))])
+        yield line('from_' + t, 0, 0, '%x' % v)
+
+
+def gen_int_roundtrip(rng, n):
+    """to(from(n)) = n: the decimal operand is built as the exact integer (what from_int must return, by its own stream)"""
+    for _ in range(n):
+        t, w, sg = rng.choice(INT_TYPES)
+        v = rng.getrandbits(w) if rng.random() < 0.7 else rng.choice([0, (1 << w) - 1, 1 << (w - 1), (1 << (w - 1)) - 1])
+        if sg and v >= 1 << (w - 1): val = v - (1 << w)
+        else: val = v
+        x = fin(1 if val < 0 else 0, abs(val), 0)
+        yield line('to_%s_%s%s' % (t, rng.choice(['', 'x']), rng.choice(INT_KINDS)), 0, status_in(rng), x)
+
+
+# ------------------------------------------------------------------------------------------------ C07 binary -> decimal
+def gen_frombin(rng, n):
+    for _ in range(n):
+        if rng.random() < 0.4:
+            eb, fb, nm = 8, 23, 'f32'
+        else:
+            eb, fb, nm = 11, 52, 'f64'
+        k = rng.random()
+        e = rng.randint(0, (1 << eb) - 1) if k < 0.8 else rng.choice([0, 0, (1 << eb) - 1, 1, (1 << eb) - 2, (1 << (eb - 1)) - 1 + rng.randint(-60, 120)])
+        kk = rng.random()
+        f = 0 if kk < 0.1 else 1 if kk < 0.15 else (1 << fb) - 1 if kk < 0.25 else 1 << rng.randint(0, fb - 1) if kk < 0.4 else rng.getrandbits(fb)
+        if kk > 0.9: f = rng.getrandbits(fb) >> rng.randint(0, fb - 1)     # leading zeros (subnormal shapes)
+        bits = (rng.randint(0, 1) << (eb + fb)) | (e << fb) | f
+        op = rng.choice(['from_' + nm] * 4 + ['from' + nm + '_t'])
+        yield line(op, rng.choice(MODES), status_in(rng), '%x' % bits)
+
+
+# ------------------------------------------------------------------------------------------------ C09 quantize and queries
+def gen_quantize(rng, n):
+    for _ in range(n):
+        k = rng.random()
+        if k < 0.55:
+            q = rng.randint(1, 34); c = coeff(rng, q); ex = expo(rng)
+            drop = rng.choice([rng.randint(-36, 40), 34 - q, 35 - q, 33 - q, -(34 - q), -(35 - q), -(33 - q), q, q + 1, q - 1, 0, 1])
+            if drop > 0 and rng.random() < 0.6 and drop <= 34:       # tail classes
+                L = min(drop, q); t = tail_digits(rng, L)
+                c = (c // 10 ** L) * 10 ** L + int(t) if q > L else int(t) or 1
+            x = fin(rng.randint(0, 1), c, ex); y = fin(rng.randint(0, 1), coeff(rng), ex + drop)
+        elif k < 0.7:   # rounding up to 10^34 / overflow edge of the coefficient
+            q = rng.randint(30, 34); drop = rng.randint(1, 5)
+            c = int('9' * q); ex = expo(rng)
+            x = fin(rng.randint(0, 1), c, ex); y = fin(0, 1, ex + rng.choice([drop, -(34 - q), -(35 - q)]))
+        else:
+            x, y = datum(rng, 0.5), datum(rng, 0.5)
+        yield line('quantize', rng.choice(MODES), status_in(rng), x, y)
+
+
+def gen_quantum_queries(rng, n):
+    for _ in range(n):
+        op = rng.choice(['quantexp', 'llquantexp', 'quantum', 'samequantum'])
+        x = datum(rng, 0.5)
+        if op == 'samequantum':
+            y = related(rng, x) if rng.random() < 0.6 else datum(rng, 0.6)
+            yield line(op, 0, 0, x, y)
+        else:
+            yield line(op, 0, status_in(rng), x)
+
+
+def gen_quantize_samequantum(rng, n):
+    """same_quantum(quantize(x, y), y): the quantized operand is built as the value quantize must return (Fin sx c qy)"""
+    for _ in range(n):
+        qy = expo(rng); x = fin(rng.randint(0, 1), coeff(rng), qy); y = fin(rng.randint(0, 1), coeff(rng), qy)
+        yield line('samequantum', 0, 0, x, y)
+
+
+# ------------------------------------------------------------------------------------------------ C10 rem / fmod
+def gen_rem(rng, n):
+    for _ in range(n):
+        k = rng.random()
+        cy = coeff(rng); qy = expo(rng)
+        if k < 0.25:      # exact ties x = (m + 1/2) y, m even or odd: y even -> x = (2m+1) * (y/2)
+            m = rng.randint(0, 10 ** rng.randint(0, 12))
+            if cy % 2: cy = (cy + 1) % T34 or 2
+            cx = (2 * m + 1) * (cy // 2); qx = qy
+            g = rng.choice([0, 0, rng.randint(1, 30)])
+            while cx >= T34: cx //= 10
+            if rng.random() < 0.3 and cy * 5 < T34:      # tie built from 5*y one exponent lower
+                cx = (2 * m + 1) * cy * 5; qx = qy - 1
+                while cx >= T34: cx //= 10
+        elif k < 0.40:    # exact multiples
+            m = rng.randint(1, 10 ** rng.randint(0, 15)); cx = cy * m; qx = qy + rng.randint(0, 40)
+            while cx >= T34: cx //= 10
+        elif k < 0.55:    # 2r vs y off by one unit
+            m = rng.randint(0, 1000); cy = cy | 1; cx = m * cy + cy // 2 + rng.choice([0, 1]); qx = qy
+            while cx >= T34: cx //= 10
+        else:
+            cx = coeff(rng)
+            g = rng.choice([rng.randint(-40, -1), rng.randint(-34, 0), rng.randint(1, 40), rng.randint(40, 12287), 12287, -12287,
+                            int(10 ** rng.uniform(0, 4.08))])
+            qx = qy + g
+            if qx > QMAX or qx < QMIN:
+                qy = max(QMIN, min(QMAX, qy - (qx - max(QMIN, min(QMAX, qx))))); qx = max(QMIN, min(QMAX, qx))
+        x = fin(rng.randint(0, 1), cx, qx); y = fin(rng.randint(0, 1), cy, qy)
+        if k > 0.93: x, y = datum(rng, 0.6), datum(rng, 0.6)
+        yield line(rng.choice(['rem', 'fmod', 'rem', 'fmod', 'o_rem']), 0, status_in(rng), x, y)
+
+
+# ------------------------------------------------------------------------------------------------ C11 scaleb / logb / frexp
+def gen_scaleb(rng, n):
+    for _ in range(n):
+        op = rng.choice(['scaleb', 'ldexp', 'scalebln'])
+        w = 64 if op == 'scalebln' else 32
+        k = rng.random()
+        q = rng.randint(1, 34); c = coeff(rng, q)
+        if rng.random() < 0.25:       # high word equal to that of 10^33, low word differing (normalisation test)
+            c = T33 + rng.randint(-10 ** 15, 10 ** 15) if rng.random() < 0.5 else int('9' * rng.randint(15, 33))
+            q = ndig(c)
+        e = expo(rng)
+        if k < 0.35: nn = QMAX - e - rng.randint(-2, 36)                 # around the clamp / overflow
+        elif k < 0.65: nn = QMIN - e - q + rng.randint(-3, 38)           # around the underflow threshold
+        elif k < 0.8: nn = rng.randint(-100, 100)
+        elif k < 0.9: nn = rng.choice([2 ** 31 - 1, -2 ** 31, 2 ** 31 - 2, -2 ** 31 + 1, 12400, -12400, 20000, -20000, 0])
+        else: nn = rng.randint(-2 ** (w - 1), 2 ** (w - 1) - 1)
+        if op == 'scalebln' and rng.random() < 0.2: nn = rng.choice([2 ** 63 - 1, -2 ** 63, 2 ** 31, -2 ** 31 - 1, 2 ** 32 + 5, -2 ** 32 - 5, 2 ** 32, 2 ** 40])
+        nn = max(-2 ** (w - 1), min(2 ** (w - 1) - 1, nn))
+        x = fin(rng.randint(0, 1), c, e) if rng.random() < 0.88 else datum(rng, 0.8)
+        yield line(op, rng.choice(MODES), status_in(rng), x, '%x' % (nn & ((1 << w) - 1)))
+
+
+def gen_logb(rng, n):
+    for _ in range(n):
+        x = datum(rng, 0.4)
+        yield line(rng.choice(['logb', 'ilogb', 'frexp']), 0, status_in(rng), x)
+
+
+# ------------------------------------------------------------------------------------------------ C12 NaN propagation
+NAN_OPS1 = ['sqrt', 'rint', 'nearbyint', 'rint_ne', 'rint_na', 'rint_dn', 'rint_up', 'rint_tz', 'nextup', 'nextdown', 'logb', 'modf']
+NAN_OPS2 = ['add', 'sub', 'mul', 'div', 'quantize', 'rem', 'fmod', 'fdim', 'nextafter', 'nexttoward', 'minnum', 'maxnum', 'minmag', 'maxmag']
+
+
+def nan_full(rng):
+    s = rng.randint(0, 1); sig = rng.randint(0, 1)
+    pay = rng.choice(NAN_PAYLOADS + [rng.randint(0, T33 - 1), rng.randint(T33, (1 << 110) - 1)])
+    res = rng.choice([0, 0, rng.getrandbits(11), 0x7ff, 1])
+    return (s << 127) | (0x1f << 122) | (sig << 121) | (res << 110) | pay
+
+
+def gen_nan(rng, n):
+    for _ in range(n):
+        k = rng.random()
+        if k < 0.25:
+            yield line(rng.choice(NAN_OPS1), rng.choice(MODES), status_in(rng), nan_full(rng))
+        elif k < 0.65:
+            a, b = nan_full(rng), (nan_full(rng) if rng.random() < 0.4 else datum(rng, 0.5))
+            if rng.random() < 0.5: a, b = b, a
+            yield line(rng.choice(NAN_OPS2), rng.choice(MODES), status_in(rng), a, b)
+        elif k < 0.8:
+            ops = [nan_full(rng) if rng.random() < 0.5 else datum(rng, 0.5) for _ in range(3)]
+            ops[rng.randint(0, 2)] = nan_full(rng)
+            yield line('fma', rng.choice(MODES), status_in(rng), *ops)
+        elif k < 0.88:
+            yield line(rng.choice(['scaleb', 'ldexp']), rng.choice(MODES), status_in(rng), nan_full(rng), '%x' % rng.getrandbits(32))
+        else:   # quiet sign operations on every kind of pattern
+            op = rng.choice(['abs', 'neg', 'copy', 'copysign', 'o_neg'])
+            x = nan_full(rng) if rng.random() < 0.5 else rng.getrandbits(128)
+            if op == 'copysign': yield line(op, 0, status_in(rng), x, rng.getrandbits(128))
+            else: yield line(op, 0, status_in(rng), x)
+
+
+def gen_invalid_sources(rng, n):
+    """operations that create a NaN from non-NaN operands"""
+    for _ in range(n):
+        z1, z2 = zero(rng), zero(rng); i1, i2 = infinity(rng), infinity(rng); f = finite(rng)
+        yield rng.choice([
+            line('div', rng.choice(MODES), status_in(rng), z1, z2), line('div', rng.choice(MODES), status_in(rng), i1, i2),
+            line('mul', rng.choice(MODES), status_in(rng), z1, i1), line('mul', rng.choice(MODES), status_in(rng), i1, z1),
+            line('add', rng.choice(MODES), status_in(rng), i1, i1 ^ (1 << 127)), line('sub', rng.choice(MODES), status_in(rng), i1, i1),
+            line('sqrt', rng.choice(MODES), status_in(rng), f | (1 << 127)), line('rem', 0, status_in(rng), f, z1), line('rem', 0, status_in(rng), i1, f),
+            line('fmod', 0, status_in(rng), f, z1), line('fmod', 0, status_in(rng), i1, f),
+            line('fma', rng.choice(MODES), status_in(rng), z1, i1, f), line('fma', rng.choice(MODES), status_in(rng), i1, f, i1 ^ (1 << 127)),
+            line('quantize', rng.choice(MODES), status_in(rng), i1, f), line('quantize', rng.choice(MODES), status_in(rng), f, i1)])
+
+
+# ------------------------------------------------------------------------------------------------ C13 every pattern / classification
+def noncanon_of(rng, x):
+    """a non-canonical encoding of the same datum where one exists, else x"""
+    d = decode(x)
+    if d[0] == 'inf': return x | rng.getrandbits(122)
+    if d[0] == 'nan' and d[3] == 0: return x | rng.randint(T33, (1 << 110) - 1) | (rng.getrandbits(11) << 110)
+    if d[0] == 'nan': return x | (rng.getrandbits(11) << 110)
+    if d[0] == 'fin' and d[2] == 0:
+        s, q = d[1], d[3]
+        if rng.random() < 0.5: return (s << 127) | ((q + BIAS) << 113) | rng.randint(T34, (1 << 113) - 1)
+        return (s << 127) | (3 << 125) | ((q + BIAS) << 111) | rng.getrandbits(111)
+    return x
+
+
+def gen_class(rng, n):
+    for _ in range(n):
+        k = rng.random()
+        if k < 0.35:      # normal / subnormal threshold: c = 10^(k-1) (+-1), q = -6143 - k + {0, 1}
+            kk = rng.randint(1, 34); c = rng.choice([10 ** (kk - 1), 10 ** kk - 1, coeff(rng, kk)])
+            x = fin(rng.randint(0, 1), c, -6143 - kk + rng.choice([0, 1, 2, -1]))
+        elif k < 0.6: x = special(rng)
+        elif k < 0.8: x = rng.getrandbits(128)
+        else: x = datum(rng, 0.3)
+        yield line(rng.choice(['class', 'isx']), 0, 0, x)
+
+
+def gen_noncanon_ops(rng, n):
+    """every operation on a non-canonical operand (the model decodes it as the standard says) in each operand position"""
+    ops1 = ['sqrt', 'rint', 'nextup', 'nextdown', 'logb', 'ilogb', 'quantexp', 'quantum', 'fmt', 'encode', 'to_i64_rnint', 'to_u32_xfloor', 'modf', 'frexp', 'llquantexp']
+    ops2 = ['add', 'sub', 'mul', 'div', 'quantize', 'rem', 'fmod', 'minnum', 'maxmag', 'nextafter', 'samequantum', 'totalorder', 'totalordermag', 'fdim', 'ops', 'copysign']
+    for _ in range(n):
+        x = noncanon_of(rng, special(rng)); k = rng.random()
+        if k < 0.35: yield line(rng.choice(ops1), rng.choice(MODES), status_in(rng), x)
+        elif k < 0.8:
+            y = datum(rng, 0.3)
+            a, b = (x, y) if rng.random() < 0.5 else (y, x)
+            yield line(rng.choice(ops2), rng.choice(MODES), status_in(rng), a, b)
+        elif k < 0.9:
+            t = [datum(rng, 0.2), datum(rng, 0.2), datum(rng, 0.2)]; t[rng.randint(0, 2)] = x
+            yield line('fma', rng.choice(MODES), status_in(rng), *t)
+        else:
+            yield line(rng.choice(['scaleb', 'ldexp']), rng.choice(MODES), status_in(rng), x, '%x' % (rng.randint(-50, 50) & 0xffffffff))
+
+
+# ------------------------------------------------------------------------------------------------ C17 next*
+def gen_next(rng, n):
+    for _ in range(n):
+        k = rng.random()
+        if k < 0.5:
+            kk = rng.randint(0, 34)
+            c = rng.choice([10 ** kk, 10 ** kk - 1, T34 - 1, 1, 0, T33, T33 - 1, T33 + 1, coeff(rng)]) % T34
+            e = rng.choice([QMIN + rng.randint(0, 36), -1, 0, 1, QMAX - rng.randint(0, 41), expo(rng)])
+            x = fin(rng.randint(0, 1), c, e)
+        else: x = datum(rng, 0.4)
+        op = rng.choice(['nextup', 'nextdown', 'nextafter', 'nexttoward'])
+        if op in ('nextup', 'nextdown'): yield line(op, 0, status_in(rng), x)
+        else:
+            y = related(rng, x) if rng.random() < 0.7 else datum(rng, 0.6)
+            yield line(op, 0, status_in(rng), x, y)
+
+
+# ------------------------------------------------------------------------------------------------ C19 DPD
+def gen_dpd(rng, n):
+    for _ in range(n):
+        k = rng.random()
+        if k < 0.4: yield line('encode', 0, status_in(rng), datum(rng, 0.3))
+        elif k < 0.55:      # coefficients sweeping three-digit groups
+            g = rng.randint(0, 999); pos = rng.randint(0, 10); c = (coeff(rng, 34) // 1000 ** (pos + 1)) * 1000 ** (pos + 1) + g * 1000 ** pos + rng.randint(0, 1000 ** pos - 1 if pos else 0)
+            yield line('encode', 0, 0, fin(rng.randint(0, 1), c % T34, expo(rng)))
+        elif k < 0.75:      # every declet value (incl. the 24 redundant ones) in each position
+            w = rng.getrandbits(128); dl = rng.choice([rng.randint(0, 1023), rng.choice([0x16e, 0x16f, 0x17e, 0x17f, 0x1ee, 0x1ef, 0x1fe, 0x1ff, 0x26e, 0x26f, 0x27e, 0x27f, 0x2ee, 0x2ef, 0x2fe, 0x2ff, 0x36e, 0x36f, 0x37e, 0x37f, 0x3ee, 0x3ef, 0x3fe, 0x3ff])])
+            pos = rng.randint(0, 10); w = (w & ~(0x3ff << (10 * pos))) | (dl << (10 * pos))
+            yield line('decode', 0, status_in(rng), w)
+        elif k < 0.9: yield line('decode', 0, status_in(rng), rng.getrandbits(128))
+        else:
+            comb = rng.choice([0x1e, 0x1f]) << 12 | rng.getrandbits(12)
+            yield line('decode', 0, 0, (rng.randint(0, 1) << 127) | (comb << 110) | rng.getrandbits(110))
+
+
+# ------------------------------------------------------------------------------------------------ C05 formatting
+def gen_fmt(rng, n):
+    m = max(1, n // 3)
+    # every one of the 12288 quantum exponents (round-robin over the run), three coefficients each
+    exps = list(range(QMIN, QMAX + 1)); rng.shuffle(exps)
+    for i in range(m):
+        e = exps[i % len(exps)] if n < 3 * 12288 else QMIN + i % 12288
+        c = rng.choice([0, 1, coeff(rng, 34)])
+        yield line('fmt', 0, 0, fin(rng.randint(0, 1), c, e))
+    for i in range(m):       # 6-bit slices at each of the 19 positions, three-digit groups at each of 12 positions
+        c = coeff(rng, rng.randint(1, 34))
+        if rng.random() < 0.5:
+            pos = rng.randint(0, 18); v = rng.randint(0, 63); c = (c & ~(63 << (6 * pos))) | (v << (6 * pos))
+        else:
+            pos = rng.randint(0, 11); g = rng.randint(0, 999); c = (c // 1000 ** (pos + 1)) * 1000 ** (pos + 1) + g * 1000 ** pos + c % (1000 ** pos)
+        yield line('fmt', 0, 0, fin(rng.randint(0, 1), c % T34, expo(rng)))
+    for i in range(n - 2 * m):
+        yield line('fmt', 0, 0, datum(rng, 0.25) if rng.random() < 0.8 else rng.getrandbits(128))
+
+
+def fmt_canonical(d, upper=True):
+    """text of a canonical datum as property C05 states it (used only to build parse inputs for the round trip)"""
+    if d[0] == 'inf': return '+-'[d[1]] + 'Inf'
+    if d[0] == 'nan': return '+-'[d[1]] + ('SNaN' if d[2] else 'NaN')
+    _, s, c, q = d
+    return '%s%d%s%s%d' % ('+-'[s], c, 'E' if upper else 'e', '+' if q >= 0 else '-', abs(q))
+
+
+def gen_roundtrip(rng, n):
+    """parse(format(x)) = x: the text is built as the format the property prescribes (the fmt stream checks the crate prints it)"""
+    for _ in range(n):
+        k = rng.random()
+        x = finite(rng) if k < 0.7 else zero(rng) if k < 0.8 else fin(rng.randint(0, 1), coeff(rng), rng.choice([QMIN, QMAX, QMIN + 1, QMAX - 1])) if k < 0.9 else rng.choice([encode(('inf', 0)), encode(('inf', 1)), encode(('nan', 0, False, 0)), encode(('nan', 1, False, 0)), encode(('nan', 0, True, 0)), encode(('nan', 1, True, 0))])
+        txt = fmt_canonical(decode(x), rng.random() < 0.7)
+        yield '%s %d %x %s' % (rng.choice(['parse', 'parse', 'parse', 'fromstr', 'fromstr2']), rng.choice(MODES), status_in(rng), txt.encode().hex())
+
+
+# ------------------------------------------------------------------------------------------------ C04 parsing
+def hexs(s): return (s.encode() if isinstance(s, str) else s).hex() or '-'
+
+
+def literal(rng, maxd=100):
+    nd = rng.choice([rng.randint(1, 34), rng.randint(1, 34), rng.randint(35, maxd), rng.randint(30, 40)])
+    ds = ''.join(rng.choice('0123456789') for _ in range(nd))
+    if nd > 37 and rng.random() < 0.5:      # ties and near-ties at digit 35
+        ds = ds[:34] + rng.choice(['5' + '0' * (nd - 35), '49' + '9' * (nd - 36), '50' + '0' * (nd - 37) + '1', '0' * (nd - 34), '0' * (nd - 35) + '1', '9' * (nd - 34)])
+    if rng.random() < 0.1: ds = '9' * nd
+    if rng.random() < 0.2: ds = '0' * rng.randint(1, 5) + ds
+    if rng.random() < 0.4:
+        p = rng.randint(0, len(ds)); ds = ds[:p] + '.' + ds[p:]
+    s = rng.choice(['', '+', '-'])
+    e = ''
+    if rng.random() < 0.75:
+        ev = rng.choice([rng.randint(-70, 70), rng.randint(-6300, 6300), -6176 + rng.randint(-45, 45), 6111 + rng.randint(-45, 45), 6144 - nd + rng.randint(-3, 3),
+                         -6176 - nd + rng.randint(-3, 40), rng.randint(-10 ** 7, 10 ** 7), rng.randint(-10 ** 10, 10 ** 10)])
+        pad = '0' * rng.choice([0, 0, 0, 1, 3, 8])
+        e = rng.choice('eE') + ('-' if ev < 0 else rng.choice(['', '+'])) + pad + str(abs(ev))
+    return s + ds + e
+
+
+SPECIAL_SPELLINGS = ['inf', 'infinity', 'nan', 'snan']
+GARBAGE = ['', ' ', '+', '-', '.', '+.', '-.', '1e', '1E+', '1E-', 'e5', '1.2.3', '1e5.0', '1e5e5', '--1', '+-1', '1/2', '1:2', '!', '/', "'", '1,5', '٣', 'ñ', '+aaañ',
+           '1ñ', '1e٣', 'infinit', 'in', 'nanx', 'na', 'snanx', 'sna', '1x', 'x1', '0x10', '1e+', '.e1', 'e', 'E', '+e1', '1 2', '1e 5', 'NaN1', 'Inf1', '1_000', '١٢٣', '１２３', '1\x00', '\x001']
+
+
+def gen_parse(rng, n):
+    ops = ['parse'] * 6 + ['fromstr', 'fromstr2']
+    for _ in range(n):
+        k = rng.random(); op = rng.choice(ops)
+        if k < 0.62: s = literal(rng)
+        elif k < 0.70: s = literal(rng, 300)
+        elif k < 0.76:
+            sp = rng.choice(SPECIAL_SPELLINGS); sp = ''.join(ch.upper() if rng.random() < 0.5 else ch for ch in sp)
+            s = rng.choice(['', '+', '-']) + sp
+        elif k < 0.84:
+            s = rng.choice(['', '+', '-']) + rng.choice(GARBAGE)
+        elif k < 0.92:      # truncations / single-character corruptions of valid literals
+            t = literal(rng, 40); p = rng.randint(0, len(t))
+            s = t[:p] if rng.random() < 0.5 else t[:p] + rng.choice(['x', ' ', '.', 'e', '+', '-', 'ñ', '/', ':', '٣']) + t[p + 1:]
+        elif k < 0.96:      # random valid UTF-8 with multi-byte characters at small offsets
+            s = ''.join(rng.choice(['1', '+', '-', '.', 'e', 'a', 's', 'n', 'i', 'ñ', '€', '𝟙', ' ']) for _ in range(rng.randint(1, 8)))
+        else:               # leading blanks (unspecified domain: skipped upstream)
+            s = rng.choice([' ', '\t', '  ']) + literal(rng, 40)
+        yield '%s %d %x %s' % (op, rng.choice(MODES), status_in(rng), hexs(s))
+
+
+# ------------------------------------------------------------------------------------------------ C14 histories are covered by status_in in every stream; C01 operators
+def gen_operators(rng, n):
+    for _ in range(n):
+        k = rng.random()
+        if k < 0.3: x, y = pair_addsub(rng); op = rng.choice(['o_add', 'o_sub'])
+        elif k < 0.5: x, y = pair_mul(rng); op = 'o_mul'
+        elif k < 0.7: x, y = pair_div(rng); op = 'o_div'
+        elif k < 0.8:
+            yield line('o_neg', 0, 0, datum(rng, 0.5)); continue
+        else:
+            m = rng.randint(0, 5); yield line(rng.choice(['sum', 'product']), 0, 0, *[datum(rng, 0.08) for _ in range(m)]); continue
+        yield line(op, 0, 0, x, y)
+
+
+def gen_all_ops_status(rng, n):
+    """C14: every flag-taking operation with all 64 incoming status values (quick: 6 per case)"""
+    fams = [gen_addsub, gen_mul, gen_div, gen_sqrt, gen_fma, gen_rint, gen_toint, gen_quantize, gen_rem, gen_scaleb, gen_logb, gen_next, gen_minmax, gen_frombin, gen_parse, gen_cmp]
+    per = max(1, n // (len(fams) * 6))
+    for f in fams:
+        for l in f(rng, per):
+            t = l.split()
+            for st in [0, 0x3f, 0x20, 0x10] + [rng.getrandbits(6), rng.getrandbits(6)]:
+                t[2] = '%x' % st
+                yield ' '.join(t)
